@@ -257,6 +257,14 @@ def pass3Throws (ps : List Param) (throws : Bool) : List Param × Bool :=
   | none => (ps, throws)
   | some last => if last.ty.ctype == Gen.throwsCtype.toList then (ps.dropLast, true) else (ps, throws)
 
+/-- `ast.Function.clone` as used by `MainTransformer._pair_static_method` (Record / Union / Boxed / Interface /
+    Enum branch): the clone receives its OWN copy of the parameter list (`self.parameters[:]`); the function left
+    in the namespace (`moved-to`) and the static function of the type are then both visited by
+    `_pass3_callable_throws`, each on its own list.  -> (namespace copy, static copy) -/
+def pairStaticThrows (ps : List Param) (throws : Bool) : (List Param × Bool) × (List Param × Bool) :=
+  let clone := ps.map id      -- `self.parameters[:]`
+  (pass3Throws ps throws, pass3Throws clone throws)
+
 /-- `_create_callback`: mark the 'user_data' arguments -/
 def markUserData (p : Param) : Param :=
   if p.ty.fundamental == some Gen.callbackUserDataFundamental.toList && p.name == Gen.callbackUserDataName.toList
